@@ -193,7 +193,7 @@ func (g *G) GenMgmtOp(cur SetModel, nNames, salSpan int, ver *int, kinds []int, 
 		}
 		*ver++
 		for _, id := range ids[:k] {
-			sal := g.Range(0, 2*salSpan) - salSpan
+			sal := g.Salience(salSpan)
 			if old, ok := cur[id]; ok && o.Kind == OpIncr && g.Pct(40) {
 				sal = old.Sal // same-salience replacement
 			}
